@@ -58,6 +58,12 @@ var (
 		netip.MustParseAddr("::ffff:192.0.2.1"),
 		// Zero-valued but valid addresses (netip.Addr{} means "none").
 		netip.MustParseAddr("0.0.0.0"),
+		// Scoped (zoned) IPv6 addresses: netip.Addr.UnmarshalBinary yields them
+		// for a backend byte string longer than 16 octets.  The zoned and the
+		// zoneless form of one address are DIFFERENT keys (near miss).
+		netip.MustParseAddr("fe80::1%eth0"),
+		netip.MustParseAddr("fe80::1"),
+		netip.MustParseAddr("fe80::2%1"),
 	}
 	vc14rtDed = []netip.Addr{
 		netip.MustParseAddr("198.51.100.1"),
@@ -66,6 +72,10 @@ var (
 		netip.MustParseAddr("2001:db8:d::2"),
 		netip.MustParseAddr("198.51.100.3"),
 		netip.MustParseAddr("::"),
+		netip.MustParseAddr("fe80::d%eth0"),
+		netip.MustParseAddr("fe80::d"),
+		netip.MustParseAddr("fe80::d%1"),
+		netip.MustParseAddr("fe80::e%a-rather-long-interface-name.with.dots_and-more-0123456789"),
 	}
 	vc14rtHumans = []agd.HumanIDLower{"", "tv", "tv-2", "phone", "my-device-x--10"}
 
@@ -382,15 +392,16 @@ func vc14rtDrawProf(t *rapid.T, id agd.ProfileID) (p *vc14rtProfSpec) {
 	p.Mode = rapid.SampledFrom([]string{"null", "nxdomain", "refused", "custom", "custom", "custom"}).Draw(t, "mode")
 	if p.Mode == "custom" {
 		v4 := []netip.Addr{netip.MustParseAddr("192.0.2.53"), netip.MustParseAddr("0.0.0.0"), netip.MustParseAddr("203.0.113.200")}
-		v6 := []netip.Addr{netip.MustParseAddr("2001:db8::53"), netip.MustParseAddr("::"), netip.MustParseAddr("::ffff:1.2.3.4")}
+		v6 := []netip.Addr{netip.MustParseAddr("2001:db8::53"), netip.MustParseAddr("::"), netip.MustParseAddr("::ffff:1.2.3.4"),
+			netip.MustParseAddr("fe80::53%eth0")}
 		switch rapid.SampledFrom([]string{"v4", "v6", "both"}).Draw(t, "customKind") {
 		case "v4":
 			p.ModeV4 = v4[:rapid.IntRange(1, 2).Draw(t, "n4")]
 		case "v6":
-			p.ModeV6 = v6[:rapid.IntRange(1, 3).Draw(t, "n6")]
+			p.ModeV6 = v6[:rapid.IntRange(1, 4).Draw(t, "n6")]
 		default:
 			p.ModeV4 = v4[rapid.IntRange(0, 2).Draw(t, "i4"):]
-			p.ModeV6 = v6[rapid.IntRange(0, 2).Draw(t, "i6"):]
+			p.ModeV6 = v6[rapid.IntRange(0, 3).Draw(t, "i6"):]
 		}
 	}
 
@@ -762,6 +773,13 @@ func vc14rtTweakWorld(t *rapid.T, w *vc14rtWorld) (nw *vc14rtWorld, what string)
 			}
 
 			cands = append([]netip.Addr{sib}, cands...)
+
+			// The other near miss: the same address with / without a zone.
+			if d.Linked.Zone() != "" {
+				cands = append([]netip.Addr{d.Linked.WithZone("")}, cands...)
+			} else if d.Linked.Is6() && !d.Linked.Is4In6() {
+				cands = append([]netip.Addr{d.Linked.WithZone("eth0")}, cands...)
+			}
 		}
 
 		for _, ip := range cands {
@@ -829,6 +847,18 @@ func vc14rtTweakWorld(t *rapid.T, w *vc14rtWorld) (nw *vc14rtWorld, what string)
 	p := nw.Profs[rapid.IntRange(0, len(nw.Profs)-1).Draw(t, "profChanged")]
 
 	return nw, fmt.Sprintf("profile %q: %s", p.ID, vc14rtMutateProf(t, p))
+}
+
+// vc14rtZoned reports whether the world has a device with a zoned IPv6 address
+// as its linked or as a dedicated address.
+func (w *vc14rtWorld) zoned() bool {
+	for _, d := range w.Devs {
+		if d.Linked.Zone() != "" || slices.ContainsFunc(d.Ded, func(ip netip.Addr) bool { return ip.Zone() != "" }) {
+			return true
+		}
+	}
+
+	return false
 }
 
 // Builders.
